@@ -50,7 +50,10 @@ def generate(E, cfg):
     segs, peaks = [], []
     shapes = cfg["shapes"]
     for s in range(NS):
-        shape = E.choose(shapes if not cfg.get("distinct_shapes") else [shapes[s % len(shapes)]], f"shape{s}")
+        if cfg.get("shapes_per_segment"):
+            shape = E.choose(cfg["shapes_per_segment"][s], f"shape{s}")
+        else:
+            shape = E.choose(shapes if not cfg.get("distinct_shapes") else [shapes[s % len(shapes)]], f"shape{s}")
         nr = sum(c in "PR" for c in shape)
         nq = sum(c in "PQ" for c in shape)
         ri = E.choose(range(0, KR - nr + 1), f"first-ref-label{s}")
@@ -178,6 +181,8 @@ def level2_configs(tier):
         cfgs.append(dict(KR=6, KQ=6, NS=2, rev=True, shapes=["PPPP"], sj="0", dp="1/2"))
         # ladder of two peaks with a small indel inside the overlap (unpaired labels inside the conflicting sub-runs)
         cfgs.append(dict(KR=6, KQ=6, NS=2, rev=False, shapes=["PPRRP", "PQPRP"], sj="0", distinct_shapes=True))
+        # a 4-pair segment against one with an unpaired label inside the overlap (different numbers of unpaired positions before the cut)
+        cfgs.append(dict(KR=6, KQ=6, NS=2, rev=True, shapes=[], sj="0", shapes_per_segment=[["PPPP"], ["PQPP", "PRPP", "PPQP", "PPRP"]]))
     else:
         for rev in (False, True):
             cfgs.append(dict(KR=4, KQ=4, NS=2, rev=rev, shapes=SHAPES_THOROUGH, sj="0"))
